@@ -42,6 +42,8 @@ def check_su2(repo, chk, parts=("algebra", "euler")):
 
     def angle_hook(tr, a):
         z = sp.powsimp(sp.expand(a))
+        if z == 0:
+            return sp.Integer(0)  # tf.math.angle(0) = atan2(0, 0) = 0
         phi, rest = sp.Integer(0), sp.Integer(1)
         for f in sp.Mul.make_args(z):
             if isinstance(f, sp.exp) and (f.args[0] / sp.I).is_real:
@@ -75,7 +77,19 @@ def check_su2(repo, chk, parts=("algebra", "euler")):
         A + "SU2M": lambda tr, args, kwargs, n: {"x": args[0]},
         A + "EulerAngle": lambda tr, args, kwargs, n: dict(zip(("alpha", "beta", "gamma"), _bind(["alpha", "beta", "gamma"], args, kwargs, {"alpha": 0, "beta": 0, "gamma": 0}))),
     }
-    tr = Translator(repo, hooks=hooks, max_depth=6)
+    def generic_policy(cond, tr_):
+        # a data-dependent branch (e.g. a gimbal-lock guard) at a generic rotation: decided at C = 1/2 and generic phases
+        try:
+            v_ = sp.sympify(cond).subs({C: sp.Rational(1, 2), S: sp.sqrt(3) / 2, u: sp.Rational(3, 10), v: sp.Rational(-7, 10), HB: sp.pi / 3})
+            v_ = sp.simplify(v_)
+            if v_ is sp.true or v_ is sp.false:
+                return bool(v_)
+        except Exception:
+            pass
+        return None
+
+    hooks["numeric_call_first"] = lambda tr_, d, args, kwargs, n: (sp.Min(*[sp.sympify(x) for x in args]) if d.split(".")[-1] == "minimum" else sp.Max(*[sp.sympify(x) for x in args])) if d.split(".")[-1] in ("minimum", "maximum") and len(args) == 2 else NotImplemented
+    tr = Translator(repo, hooks=hooks, max_depth=6, where_policy=generic_policy)
     chk.assume("SU2M euler clause: 0 < beta < pi (clip_by_value inactive, cos(beta/2), sin(beta/2) > 0); (alpha+gamma)/2 and (alpha-gamma)/2 in (-pi, pi)")
 
     def call(name, args, self_obj=None):
@@ -153,3 +167,12 @@ def check_su2(repo, chk, parts=("algebra", "euler")):
     for i in range(2):
         for j in range(2):
             oblige("R_z(g') R_y(b') R_z(a') == M [%d][%d] for (a', b', g') = get_euler_angle(M)" % (i, j), Rm[i][j], Mm[i][j], A + "SU2M.get_euler_angle", "euler-%d%d" % (i, j))
+    # ---- the two gimbal-lock points: beta = 0 (only alpha + gamma is defined) and beta = pi (only alpha - gamma)
+    for label, beta in (("beta=0", sp.Integer(0)), ("beta=pi", sp.pi)):
+        M0 = mul(mul(call("Rotation_z", [u - v]), call("Rotation_y", [beta])), call("Rotation_z", [u + v]))
+        ang0 = call("get_euler_angle", [], self_obj=M0)
+        R0 = mul(mul(call("Rotation_z", [ang0["gamma"]]), call("Rotation_y", [ang0["beta"]])), call("Rotation_z", [ang0["alpha"]]))
+        Mm0, Rm0 = mat(M0), mat(R0)
+        for i in range(2):
+            for j in range(2):
+                oblige("%s: R_z(g') R_y(b') R_z(a') == M [%d][%d]" % (label, i, j), Rm0[i][j], Mm0[i][j], A + "SU2M.get_euler_angle", "euler-%s-%d%d" % (label, i, j), wrap_grid=True)
